@@ -16,6 +16,7 @@ import (
 	"runtime"
 	"slices"
 	"sort"
+	"strings"
 	"testing"
 	"time"
 
@@ -86,7 +87,7 @@ func genDerive(r *KRng, client string) *WDerive {
 		}
 	}
 	if r.P(0.3) {
-		d.SrcCIDLen = r.Pick(-1, 1, 3, 8, 15, 20)
+		d.SrcCIDLen = r.Pick(-1, 3, 4, 8, 15, 20) // not below Firefox's 3 bytes: shorter IDs collide among the IDs of one connection
 	}
 	if r.P(0.3) {
 		d.DstCIDLen = r.Pick(8, 9, 12, 16, 20)
@@ -311,7 +312,17 @@ func runDial(t *testing.T, ksc KScenario, res *KResult) {
 		if cp.err != nil || !cp.echoOK {
 			if len(w.Log[0]) == sentBefore {
 				// nothing left the client: the spec was rejected up front (allowed by C09; a C02 matter only for specs of the claimed family)
-				report("C02", "dial with a built-in or derived spec rejected before anything was sent", "dial #%d: %v", di, cp.err)
+				// (a layout that cannot carry the ClientHello - a single-frame builder with a multi-datagram
+				// ClientHello - is rightly rejected: C09; only specs whose builder can split are claimed here)
+				d := sc.Cfg.Derive
+				multi := (d != nil && d.PadCH > 0) || strings.HasPrefix(sc.Cfg.Client, "chrome146") // ClientHello needs several datagrams
+				feasible := d == nil || !multi || d.Builder == "random" || d.Builder == "multi" ||
+					((d.Builder == "" || d.Builder == "keep") && strings.HasPrefix(sc.Cfg.Client, "chrome"))
+				if feasible {
+					report("C02", "dial with a built-in or derived spec rejected before anything was sent", "dial #%d: %v", di, cp.err)
+				} else {
+					res.Probe("unlayoutable-spec-rejected-before-send")
+				}
 			} else {
 				pre := res.Violation
 				judgeFailure(w, &sc.Cfg, &sc.Net, len(sc.Faults), res, cp.err, nil, true, horizon)
@@ -534,7 +545,7 @@ func checkClientHello(w *World, n *Nodes, sc *DialScenario, di int, cp *dialCapt
 					break
 				}
 				switch wt {
-				case 0x10, 0x2b, 0x0d, 0x2d, 0x1b, 0x4469, 0x0a, 0x05, 0x12, 0x39:
+				case 0x10, 0x2b, 0x0d, 0x2d, 0x1b, 0x4469, 0x0a, 0x05, 0x12:
 					// deterministic bodies (ALPN, versions, signature algorithms, PSK modes, cert compression, ALPS, groups, status request, SCT, transport parameters)
 					if !bytes.Equal(want[i].Body, ch.Exts[i].Body) && wt != 0x0a && wt != 0x2b {
 						report("C11", "ClientHello extension body differs from what the spec serialises", "dial #%d ext %#x: wire %x spec %x", di, wt, ch.Exts[i].Body, want[i].Body)
@@ -557,8 +568,27 @@ func checkClientHello(w *World, n *Nodes, sc *DialScenario, di int, cp *dialCapt
 		val string
 	}
 	var wantTP, gotTP []kv
+	suppressed := func(id uint64) bool {
+		for _, s := range n.Spec.SuppressTransportParameters {
+			if id == s || (s == 27 && id >= 27 && (id-27)%31 == 0) {
+				return true
+			}
+		}
+		return false
+	}
+	var scid []byte
+	if ff := firstFlight(cp.conn); len(ff) > 0 {
+		scid = ff[0].SCID
+	}
 	for _, tp := range q.TransportParameters {
-		wantTP = append(wantTP, kv{tp.ID(), string(tp.Value())})
+		if suppressed(tp.ID()) {
+			continue
+		}
+		val := tp.Value()
+		if tp.ID() == 0x0f && len(val) == 0 {
+			val = scid // an empty initial_source_connection_id stands for "the connection's source connection ID"
+		}
+		wantTP = append(wantTP, kv{tp.ID(), string(val)})
 	}
 	for _, tp := range ch.TPs {
 		gotTP = append(gotTP, kv{tp.ID, string(tp.Val)})
